@@ -56,3 +56,26 @@ func TestVerif_C11_rowscached(t *testing.T) {
 		},
 		func(c sqlx.C11RowsCase) kit.Verdict { return sqlx.VerifC11InterpRows(c, c11CachedQueryRun) })
 }
+
+// c11CachedHist adapts CachedConn to the history rule.
+type c11CachedHist struct{ cc sqlc.CachedConn }
+
+func (h c11CachedHist) Transact(fn func(sqlx.Session) error) error { return h.cc.Transact(fn) }
+func (h c11CachedHist) TransactCtx(ctx context.Context, fn func(context.Context, sqlx.Session) error) error {
+	return h.cc.TransactCtx(ctx, fn)
+}
+func (h c11CachedHist) Exec(q string, args ...any) (sql.Result, error) {
+	return h.cc.ExecNoCache(q, args...)
+}
+func (h c11CachedHist) QueryRow(v any, q string, args ...any) error {
+	return h.cc.QueryRowNoCache(v, q, args...)
+}
+
+func TestVerif_C11_histcached(t *testing.T) {
+	kit.Run(t, "C11", "hist-cached", kit.Opts{Quick: 1000, Thorough: 48000}, sqlx.VerifC11GenHist,
+		func(c sqlx.C11HistCase) kit.Verdict {
+			return sqlx.VerifC11InterpHist(t, c, func(db *sql.DB) sqlx.C11HistConn {
+				return c11CachedHist{sqlc.NewConnWithCache(sqlx.NewConnFromDB(db), nil)}
+			})
+		})
+}
